@@ -27,6 +27,7 @@ type vpC26Snap struct {
 type vpC26Round struct {
 	Snaps  []vpC26Snap // timestamp order
 	Credit bool        // fixed per round, as the kernel derives it from the round
+	Mixed  bool        // a signer-less first snapshot (genesis) followed by cosigned ones
 }
 
 type vpC26Chain struct {
@@ -65,8 +66,14 @@ func vpC26GenWork(t *rapid.T) *vpC26Work {
 		for ri := 0; ri < nr; ri++ {
 			var r vpC26Round
 			ns := rapid.IntRange(1, 6).Draw(t, "snaps")
-			genesisLike := ri == 0 && rapid.IntRange(0, 5).Draw(t, "genesis_like") == 0
-			if genesisLike && ns > 2 {
+			genesisLike := ri == 0 && rapid.IntRange(0, 3).Draw(t, "genesis_like") == 0
+			// round 0 of a genesis chain: the signer-less genesis snapshot, alone or
+			// (mixed) joined later by cosigned snapshots
+			r.Mixed = genesisLike && rapid.Bool().Draw(t, "genesis_grows")
+			if genesisLike && !r.Mixed && ns > 2 {
+				ns = 2
+			}
+			if r.Mixed && ns < 2 {
 				ns = 2
 			}
 			span := uint64(rapid.IntRange(ns, 2999).Draw(t, "span_ms")) * 1000000
@@ -74,7 +81,7 @@ func vpC26GenWork(t *rapid.T) *vpC26Work {
 			for si := 0; si < ns; si++ {
 				s := vpC26Snap{Ts: ts + uint64(si)*step + uint64(rapid.IntRange(0, 999).Draw(t, "jitter"))}
 				s.Hash = crypto.Blake3Hash([]byte(fmt.Sprintf("vpC26-snap-%s-%d-%d-%d", w.Salt, ci, ri, si)))
-				if !genesisLike {
+				if !genesisLike || (r.Mixed && si > 0) {
 					set := map[int]bool{ch.Proposer: true}
 					for _, k := range rapid.SliceOfN(rapid.IntRange(0, 6), 0, 6).Draw(t, "signers") {
 						set[k] = true
@@ -344,7 +351,12 @@ func (r *vpC26Run) step(t *rapid.T, ci int) {
 		for i := range idx {
 			idx[i] = i
 		}
-		if rapid.Bool().Draw(t, "prefix") {
+		if ch.Rounds[round].Mixed {
+			// the genesis round is first submitted while it holds the genesis
+			// snapshot alone (a batch led by a signer-less snapshot is never
+			// credited, so the kernel never relies on it)
+			r.have[ci][0] = true
+		} else if rapid.Bool().Draw(t, "prefix") {
 			for _, si := range idx[:k] {
 				r.have[ci][si] = true
 			}
@@ -403,6 +415,9 @@ func (r *vpC26Run) classes() (bool, []string) {
 			if len(rd.Snaps[0].Signers) == 0 {
 				cls["genesis-like"] = true
 			}
+			if rd.Mixed && r.grow[k] >= 2 {
+				cls["genesis-round-grown"] = true
+			}
 			if r.subs[k] >= 3 && r.grow[k] >= 2 {
 				cls["round-3x-growing"] = true
 				if len(days) >= 2 {
@@ -451,8 +466,8 @@ func vpC26Open(t *testing.T) *vpC26Shared {
 
 // TestVP_C26_history: drawn submission patterns with reopen at drawn points.
 func TestVP_C26_history(t *testing.T) {
-	c := kit.New(t, "C26", "rapid: 7 fresh node ids per case on one shared store; 1..3 chains x 2..6 rounds x 1..6 snapshots (signer sets always containing the proposer, or a signer-less genesis-like first round), rounds within <3 s, day changes frequent, credit fixed per round (false whenever the round straddles midnight); T.Repeat of submissions that stay inside what kernel/mint.go guarantees (round <= offset+1, growing member sets, plus repeats and stale older rounds) with the store closed and reopened at drawn call boundaries followed by the kernel's restart re-submission; after every call ListNodeWorks for all nodes and days (and the days around) and ReadWorkOffset are compared with a set-semantics model; non-trivial = a round submitted >=3 times with a set that grew at least twice in a chain that spans >=2 days; distinct by the call trace")
-	c.Require("round-3x-growing", "two-days", "stale-round-ignored", "reopened", "no-credit-round", "genesis-like", "multi-chain", "round-straddles-midnight")
+	c := kit.New(t, "C26", "rapid: 7 fresh node ids per case on one shared store; 1..3 chains x 2..6 rounds x 1..6 snapshots (signer sets always containing the proposer, or a signer-less genesis-like first round, or a first round whose signer-less genesis snapshot is submitted alone first and then joined by cosigned snapshots), rounds within <3 s, day changes frequent, credit fixed per round (false whenever the round straddles midnight); T.Repeat of submissions that stay inside what kernel/mint.go guarantees (round <= offset+1, growing member sets, plus repeats and stale older rounds) with the store closed and reopened at drawn call boundaries followed by the kernel's restart re-submission; after every call ListNodeWorks for all nodes and days (and the days around) and ReadWorkOffset are compared with a set-semantics model; non-trivial = a round submitted >=3 times with a set that grew at least twice in a chain that spans >=2 days; distinct by the call trace")
+	c.Require("round-3x-growing", "two-days", "stale-round-ignored", "reopened", "no-credit-round", "genesis-like", "genesis-round-grown", "multi-chain", "round-straddles-midnight")
 	c.Assume("Badger commits are atomic and durable (SyncWrites): a crash is modelled as close+reopen at a call boundary", "snapshots without signers (genesis) earn their proposer 0 or 1 proposal credit: only bounded, not pinned")
 	kit.SetChecks(kit.N(400, 10000))
 	kit.SetSteps(16)
@@ -519,7 +534,7 @@ func TestVP_C26_reopen_every_boundary(t *testing.T) {
 			for ci, ch := range w0.Chains {
 				nc := vpC26Chain{Proposer: ch.Proposer}
 				for ri, rd := range ch.Rounds {
-					nr := vpC26Round{Credit: rd.Credit}
+					nr := vpC26Round{Credit: rd.Credit, Mixed: rd.Mixed}
 					for si, s := range rd.Snaps {
 						s.Hash = crypto.Blake3Hash([]byte(fmt.Sprintf("vpC26-snap-%s-%d-%d-%d", w.Salt, ci, ri, si)))
 						nr.Snaps = append(nr.Snaps, s)
@@ -588,6 +603,9 @@ func vpC26ScriptedStep(r *vpC26Run, seed uint64) {
 		r.cur[ci]++
 		round := r.cur[ci]
 		r.have[ci] = map[int]bool{next(len(ch.Rounds[round].Snaps)): true}
+		if ch.Rounds[round].Mixed {
+			r.have[ci] = map[int]bool{0: true}
+		}
 		r.submit(ci, round, vpC26Keys(r.have[ci]), false, "N")
 		r.count(ci, true)
 	case "old":
